@@ -83,7 +83,7 @@ def build(data, pfx="", maxn=5, allow_include=True):
                 lv["attrs"][a] = "L%d.%s" % (i, a) if g.chance(75) else g.pick([None, "", 0, False])
         levels.append(lv)
     for i in range(n - 1):
-        levels[i]["inherit"] = g.pick(["static", "rel", "dyn", "static", "rel", "dynrel"])
+        levels[i]["inherit"] = g.pick(["static", "rel", "dyn", "static", "rel", "dynrel", "dyntmpl"])
     # a parent lives in the directory of its child or below it (string lookups do not resolve ".." segments)
     for i in range(1, n):
         levels[i]["dir"] = levels[i - 1]["dir"] + levels[i]["dir"]
@@ -287,6 +287,10 @@ def emit_level(case, i, uris):
         src.append('<%%inherit file="%s"/>' % rel_uri(uris, i))
     elif inh in ("dyn", "dynrel"):
         src.append('<%%inherit file="${context[\'%sdyn%d\']}"/>' % (pfx, i))
+    elif inh == "dyntmpl":
+        # the expression names its parent through `template`: the template the tag is written in
+        # (normalised: a template reached through a relative reference carries the joined, not the normalised, URI)
+        src.append('<%%inherit file="${context[\'%sparents\'][__import__(\'posixpath\').normpath(template.uri)]}"/>' % pfx)
     elif inh == "dynnone":
         src.append('<%inherit file="${context.get(\'dynnone\') or None}"/>')
     if lv["page"]:
@@ -417,7 +421,7 @@ def features(case):
                     if inn in m.blocks[k] and name not in m.blocks[k]:
                         nested_override = True
     return {"n": n, "nonadj": nonadj, "nested_override": nested_override,
-            "dyn": any(lv.get("inherit") in ("dyn", "dynrel", "dynnone") for lv in case["levels"]),
+            "dyn": any(lv.get("inherit") in ("dyn", "dynrel", "dynnone", "dyntmpl") for lv in case["levels"]),
             "rel": any(lv.get("inherit") in ("rel", "dynrel") and case["levels"][j].get("dir") != case["levels"][j + 1].get("dir")
                        for j, lv in enumerate(case["levels"][:-1])),
             "include": bool(sub_cases(case))}
@@ -448,6 +452,7 @@ def check_case(case, ev=None):
                         plan.append(("%s/%st%d.html" % (base, dname, i), "DECOY(%s%d)" % (dname, i)))
         for i in range(len(lv) - 1):
             ctx["%sdyn%d" % (c.get("pfx", ""), i)] = rel_uri(us, i) if lv[i].get("inherit") == "dynrel" else us[i + 1]
+        ctx["%sparents" % c.get("pfx", "")] = {us[i]: us[i + 1] for i in range(len(lv) - 1)}
         return us
 
     _inc_uris.clear()
